@@ -2,10 +2,10 @@ SPECIFICATION MCSpec
 CONSTANTS
   PermuteModules = TRUE
   N = 3
-  Kinds = {"val"}
+  Kinds = {"val", "ptr"}
   VftTypes = {2}
-  FnKinds = {"ret", "vparam"}
-  FnOwners = {3}
+  FnKinds = {}
+  FnOwners = {}
   TwoModules = TRUE
   Ptrs = {4}
 INVARIANTS Inv_Passes Replay
